@@ -247,14 +247,16 @@ fn main() {
                 chalk_integration::tls::set_current_program(&p, || {
                     let db = simdb(&p);
                     let a = run_solve(&mut SolverChoice::slg_default().into_solver(), &db, &g);
+                    println!("{:70} => slg: {}", gt, rfmt(&a));
                     let b = run_solve(&mut SolverChoice::recursive_default().into_solver(), &db, &g);
-                    println!("{:70} => slg: {} | rec: {}", gt, rfmt(&a), rfmt(&b));
+                    println!("{:70} => rec: {}", gt, rfmt(&b));
                 });
             }
         }
         "pcorpus" => { std::thread::Builder::new().stack_size(1usize<<30).spawn(pcorpus).unwrap().join().unwrap(); }
         "icorpus" => { std::thread::Builder::new().stack_size(1usize<<30).spawn(icorpus).unwrap().join().unwrap(); }
         "batch" => { std::thread::Builder::new().stack_size(1usize<<30).spawn(batch).unwrap().join().unwrap(); }
+        "mcorpus" => { std::thread::Builder::new().stack_size(1usize<<30).spawn(mcorpus).unwrap().join().unwrap(); }
         "corpus" => { std::thread::Builder::new().stack_size(2usize<<30).spawn(corpus).unwrap().join().unwrap(); }
         _ => println!("usage"),
     }
@@ -650,4 +652,47 @@ fn batch() {
             });
         }
     }
+}
+
+
+fn enumerate(solver: &mut Box<dyn Solver<ChalkIr>>, db: &SimDb, g: &G, cap: usize) -> Option<(Vec<String>, Vec<bool>, bool)> {
+    let mut seen: Vec<String> = vec![]; let mut flags: Vec<bool> = vec![];
+    db.calls.set(0); db.budget.set(3_000_000);
+    let res = catch_unwind(AssertUnwindSafe(|| solver.solve_multiple(db, g, &mut |r, more| {
+        seen.push(format!("{}", r.as_ref().map(|v| v.display(ChalkIr))));
+        flags.push(more);
+        seen.len() < cap
+    })));
+    match res { Ok(done) => Some((seen, flags, done)), Err(_) => None }
+}
+
+fn mcorpus() {
+    let c = SolverChoice::slg_default();
+    let (mut total, mut bad, mut goals_n) = (0, 0, 0);
+    for (idx, (file, ptext, goals)) in load().iter().enumerate() {
+        if idx == 161 || file == "negation.rs" { continue; }
+        let p = match try_program(ptext) { Some(p) => p, None => continue };
+        for gt in goals {
+            let g = match try_goal(&p, gt) { Some(g) => g, None => continue };
+            chalk_integration::tls::set_current_program(&p, || {
+                let db = simdb(&p);
+                let fresh = match enumerate(&mut c.into_solver(), &db, &g, 24) { Some(x) => x, None => return };
+                goals_n += 1;
+                for j in 1..=fresh.0.len() {
+                    let mut solver = c.into_solver();
+                    let first = match enumerate(&mut solver, &db, &g, j) { Some(x) => x, None => continue };
+                    // resume on the same solver: full enumeration again
+                    let second = match enumerate(&mut solver, &db, &g, 24) { Some(x) => x, None => continue };
+                    total += 1;
+                    let prefix_ok = first.0[..] == fresh.0[..first.0.len().min(fresh.0.len())];
+                    if !prefix_ok || second.0 != fresh.0 || second.1 != fresh.1 || second.2 != fresh.2 {
+                        bad += 1;
+                        println!("C03-resume {} goal={} j={}\n   fresh={:?} {:?}\n   first={:?}\n   again={:?} {:?}", file, gt, j, fresh.0, fresh.1, first.0, second.0, second.1);
+                    }
+                    // also: aggregated solve on the same warm solver equals fresh solve
+                }
+            });
+        }
+    }
+    println!("enumerated goals={} stop/resume histories={} bad={}", goals_n, total, bad);
 }
